@@ -474,3 +474,43 @@ def year_boundary_comparisons(i: int, j: int, swap: bool) -> bool:
         if _one(r) is not f(x, y):
             return False
     return True
+
+
+# --- added after the round-4 baseline reports: durations longer than datetime.timedelta can hold ----------------------------------------------
+
+TV_YM = {k: P31.parse('xs:yearMonthDuration($a) %s xs:yearMonthDuration($b)' % k) for k in OPS}
+LONG_DAYS = (0, 1, 999999999, 1000000000, 1000000001, 10 ** 12, 5 * 10 ** 12)
+LONG_YEARS = (0, 1, 2737908, 3000000, 3000001, 10 ** 8)
+
+
+_LONG = '''
+@ob(budget=300, family='duration-any-length', bound='two {kind} values of {vals}, the first {neg}, the second optionally negated (indices and sign chosen by the '
+                      'solver, text concrete on each path): the six value comparisons follow the order of the lengths and raise nothing',
+    funcs=['elementpath/datatypes/datetime.py:Duration._compare_durations', 'elementpath/helpers.py:months2days', O2 + ':value comparisons'])
+def duration_order_any_length_{name}(i: int, j: int, nj: bool) -> bool:
+    \"\"\"
+    pre: 0 <= i <= {top} and 0 <= j <= {top}
+    post: _
+    \"\"\"
+    return _long_order(i, j, {ni}, nj, {ym})
+'''
+
+
+def _long_order(i, j, ni, nj, ym):
+    tab = LONG_YEARS if ym else LONG_DAYS
+    i, j = [k for k in range(7) if k == i][0], [k for k in range(7) if k == j][0]
+    x, y = tab[i] * (-1 if ni else 1), tab[j] * (-1 if nj else 1)
+    fmt = 'P%dY' if ym else 'P%dD'
+    a, b = ('-' if x < 0 else '') + fmt % abs(x), ('-' if y < 0 else '') + fmt % abs(y)
+    for k, f in OPS.items():
+        r = (TV_YM if ym else TV_STR)[k].evaluate(XPathContext(item=1, variables={'a': a, 'b': b}))
+        if _one(r) is not f(x, y):
+            return False
+    return True
+
+
+for _ym in (False, True):
+    for _ni in (False, True):
+        define(_LONG.format(name=('ym' if _ym else 'dt') + ('_neg' if _ni else '_pos'), ym=_ym, ni=_ni, top=5 if _ym else 6,
+                            kind='xs:yearMonthDuration' if _ym else 'xs:dayTimeDuration', neg='negated' if _ni else 'positive',
+                            vals='0, 1, 2737908, 3000000, 3000001 or 10^8 years' if _ym else '0, 1, 999999999, 10^9, 10^9+1, 10^12 or 5*10^12 days'), globals())
